@@ -1,4 +1,5 @@
 import FsutilModel.Model.Filter
+import FsutilModel.Lemmas.C11
 /-! # C11 — A filtered view transfers as a self-contained tree (hard-link reset) -/
 namespace Fsm.C11
 open F
@@ -37,43 +38,12 @@ example :
     (hardlinkReset [b, c]).map (·.linkname) = [[], [98]] ∧ linksClosed [] (hardlinkReset [b, c]) = true := by
   decide
 
-def NonDir (e : StatE) : Prop := (e.isDir || e.isSymlink) = false
-
-/-- paths of the entries that the source listing announces as hard links -/
-def linkPaths (l : List StatE) : List Path :=
-  (l.filter fun e => !(e.isDir || e.isSymlink) && e.linkname != []).map (·.path)
-
 /-- the listing comes from a walk: paths are distinct, and a link name never names an entry that is itself announced as a
 link (the walk names the first member of the group), nor the entry itself -/
 structure Canon (l : List StatE) : Prop where
   nodup : (l.map (·.path)).Nodup
   names : ∀ e ∈ l, NonDir e → e.linkname ≠ [] → e.linkname ∉ linkPaths l ∧ e.linkname ≠ e.path
   nonempty : ∀ e ∈ l, e.path ≠ []
-
-theorem step_dir (seen : List (Path × Path)) (e : StatE) (rest : List StatE) (hd : (e.isDir || e.isSymlink) = true) :
-    hardlinkResetGo seen (e :: rest) = e :: hardlinkResetGo seen rest := by
-  rw [hardlinkResetGo]; simp [hd]
-
-theorem step_plain (seen : List (Path × Path)) (e : StatE) (rest : List StatE) (hd : NonDir e) (hl : e.linkname = []) :
-    hardlinkResetGo seen (e :: rest) = e :: hardlinkResetGo ((e.path, e.path) :: seen) rest := by
-  rw [hardlinkResetGo]; simp [show (e.isDir || e.isSymlink) = false from hd, hl]
-
-theorem step_promote (seen : List (Path × Path)) (e : StatE) (rest : List StatE) (hd : NonDir e) (hl : e.linkname ≠ [])
-    (hf : seen.find? (·.1 = e.linkname) = none) :
-    hardlinkResetGo seen (e :: rest)
-      = { e with linkname := [] } :: hardlinkResetGo ((e.path, e.path) :: (e.linkname, e.path) :: seen) rest := by
-  rw [hardlinkResetGo]; simp [show (e.isDir || e.isSymlink) = false from hd, hl, hf]
-
-theorem step_relink (seen : List (Path × Path)) (e : StatE) (rest : List StatE) (k v : Path) (hd : NonDir e)
-    (hl : e.linkname ≠ []) (hf : seen.find? (·.1 = e.linkname) = some (k, v)) (hv : v ≠ e.path) :
-    hardlinkResetGo seen (e :: rest)
-      = { e with linkname := v } :: hardlinkResetGo ((e.path, e.path) :: seen) rest := by
-  rw [hardlinkResetGo]; simp [show (e.isDir || e.isSymlink) = false from hd, hl, hf, hv]
-
-theorem step_same (seen : List (Path × Path)) (e : StatE) (rest : List StatE) (k : Path) (hd : NonDir e)
-    (hl : e.linkname ≠ []) (hf : seen.find? (·.1 = e.linkname) = some (k, e.path)) :
-    hardlinkResetGo seen (e :: rest) = e :: hardlinkResetGo ((e.path, e.path) :: seen) rest := by
-  rw [hardlinkResetGo]; simp [show (e.isDir || e.isSymlink) = false from hd, hl, hf]
 
 /-- the reset changes link names only: same entries, same order -/
 theorem reset_paths : ∀ (l : List StatE) (seen : List (Path × Path)),
@@ -96,91 +66,6 @@ theorem reset_paths : ∀ (l : List StatE) (seen : List (Path × Path)),
           · subst hv; rw [step_same seen e rest k hn hl hf]; simp [ih]
           · rw [step_relink seen e rest k v hn hl hf hv]; simp [ih]
 
-theorem reset_closed_go (all : List StatE) : ∀ (rest : List StatE) (seen : List (Path × Path)) (P : List Path),
-    (∀ kv ∈ seen, kv.2 ∈ P ∨ (kv.1 = kv.2 ∧ kv.1 ∈ linkPaths all)) →
-    (∀ e ∈ rest, NonDir e → e.linkname ≠ [] → e.linkname ∉ linkPaths all ∧ e.path ∈ linkPaths all) →
-    (∀ e ∈ rest, e.path ∉ P ∧ e.path ≠ []) →
-    (∀ x ∈ P, x ≠ []) →
-    (rest.map (·.path)).Nodup →
-    linksClosed P (hardlinkResetGo seen rest) = true := by
-  intro rest
-  induction rest with
-  | nil => intro seen P _ _ _ _ _; simp [hardlinkResetGo, linksClosed]
-  | cons e rest ih =>
-    intro seen P hinv hcan hfresh hPne hnd
-    have hnd' := (List.nodup_cons.mp hnd)
-    have hep := hfresh e (by simp)
-    have hfreshP : ∀ f ∈ rest, f.path ∉ P ∧ f.path ≠ [] := fun f hf => hfresh f (by simp [hf])
-    have hfreshP' : ∀ f ∈ rest, f.path ∉ (e.path :: P) ∧ f.path ≠ [] := by
-      intro f hf
-      refine ⟨?_, (hfreshP f hf).2⟩
-      intro hm
-      simp only [List.mem_cons] at hm
-      rcases hm with h | h
-      · exact hnd'.1 (List.mem_map.mpr ⟨f, hf, h⟩)
-      · exact (hfreshP f hf).1 h
-    have hPne' : ∀ x ∈ e.path :: P, x ≠ [] := by
-      intro x hx; simp only [List.mem_cons] at hx
-      rcases hx with h | h
-      · rw [h]; exact hep.2
-      · exact hPne x h
-    have hcan' : ∀ f ∈ rest, NonDir f → f.linkname ≠ [] → f.linkname ∉ linkPaths all ∧ f.path ∈ linkPaths all :=
-      fun f hf => hcan f (by simp [hf])
-    have hinvP' : ∀ kv ∈ seen, kv.2 ∈ e.path :: P ∨ (kv.1 = kv.2 ∧ kv.1 ∈ linkPaths all) := by
-      intro kv hkv
-      rcases hinv kv hkv with h | h
-      · left; simp [h]
-      · right; exact h
-    by_cases hd : (e.isDir || e.isSymlink) = true
-    · rw [step_dir seen e rest hd]
-      simp only [linksClosed, hd, if_true]
-      exact ih seen P hinv hcan' hfreshP hPne hnd'.2
-    · have hn : NonDir e := by simpa [NonDir] using hd
-      have hdf : (e.isDir || e.isSymlink) = false := hn
-      by_cases hl : e.linkname = []
-      · rw [step_plain seen e rest hn hl]
-        simp only [linksClosed, hdf, hl]
-        simp only [Bool.false_eq_true, if_false, ne_eq, not_true_eq_false]
-        refine ih _ (e.path :: P) ?_ hcan' hfreshP' hPne' hnd'.2
-        intro kv hkv
-        simp only [List.mem_cons] at hkv
-        rcases hkv with rfl | hkv
-        · left; simp
-        · exact hinvP' kv hkv
-      · obtain ⟨hnotlink, hislink⟩ := hcan e (by simp) hn hl
-        cases hf : seen.find? (·.1 = e.linkname) with
-        | none =>
-          rw [step_promote seen e rest hn hl hf]
-          simp only [linksClosed, StatE.isDir, StatE.isSymlink] at hdf ⊢
-          simp only [hdf, Bool.false_eq_true, if_false, ne_eq, not_true_eq_false]
-          refine ih _ (e.path :: P) ?_ hcan' hfreshP' hPne' hnd'.2
-          intro kv hkv
-          simp only [List.mem_cons] at hkv
-          rcases hkv with rfl | rfl | hkv
-          · left; simp
-          · left; simp
-          · exact hinvP' kv hkv
-        | some kv =>
-          obtain ⟨k, v⟩ := kv
-          have hmem := List.mem_of_find?_eq_some hf
-          have hk : k = e.linkname := by simpa using List.find?_some hf
-          have hvP : v ∈ P := by
-            rcases hinv (k, v) hmem with h | h
-            · exact h
-            · exact absurd (hk ▸ h.2) hnotlink
-          have hvne : v ≠ e.path := fun h => hep.1 (h ▸ hvP)
-          have hv0 : v ≠ [] := hPne v hvP
-          rw [step_relink seen e rest k v hn hl hf hvne]
-          simp only [linksClosed, StatE.isDir, StatE.isSymlink] at hdf ⊢
-          simp only [hdf, Bool.false_eq_true, if_false, ne_eq, hv0, not_false_eq_true, if_true, Bool.and_eq_true]
-          refine ⟨by simpa using hvP, ?_⟩
-          refine ih _ P ?_ hcan' hfreshP hPne hnd'.2
-          intro kv hkv
-          simp only [List.mem_cons] at hkv
-          rcases hkv with rfl | hkv
-          · right; exact ⟨rfl, hislink⟩
-          · exact hinv kv hkv
-
 /-- **Closure of the reset**: for every listing as a walk produces it (distinct paths, link names naming non-link entries or
 entries that are not in the listing at all), every hard link of the reset listing names an EARLIER entry of the listing
 that is announced without link name — whichever members of each group the filter removed. -/
@@ -196,7 +81,6 @@ theorem reset_closed (l : List StatE) (hc : Canon l) : linksClosed [] (hardlinkR
   · intro e he; exact ⟨by simp, hc.nonempty e he⟩
   · intro x hx; simp at hx
   · exact hc.nodup
-
 
 /-- non-vacuity: `b → a`, `c → a`, `d` plain, with `a` filtered out of the listing, is a canonical listing -/
 example :
